@@ -36,6 +36,19 @@ def run(prog, tier):
             "file.readlines() yields non-empty strings; str.strip() may return ''")
     res = Resolver(prog)
     eff = Effects(prog, res)
+    # ROUND-TRIP: the in-house writers and readers folded over stand-in graphs and texts (sa/props/_graphio_fold.py); a shape finding
+    # inside one of those functions is an undecided shape when the folding confirmed round trips and refusals
+    from . import _graphio_fold as _gio
+    from ._shared import merge_filtered
+    rt = _gio.verdict(prog)
+    anchor = prog.func("cnfgen.graphs", "readGraph")
+    if rt[0] is True:
+        R.ok("ROUND-TRIP", rt[1], anchor.key)
+    elif rt[0] is False:
+        R.bad(F("ROUND-TRIP", anchor, "kthlist / dimacs / matrix round trip", rt[1]))
+    else:
+        R.unknown("ROUND-TRIP", "kthlist / dimacs / matrix round trip", anchor.key, rt[1])
+    R0, R = R, Result(P, "")
     check_reader_total(R, prog, eff)
     check_external_wrapped(R, prog)
     check_dag_gate(R, prog)
@@ -45,6 +58,8 @@ def run(prog, tier):
     check_label_order(R, prog)
     check_writers(R, prog)
     check_return_defined(R, prog)
+    merge_filtered(R0, R, lambda f: rt[1] if (rt[0] is True and f.module == "cnfgen.graphs" and (f.function or "").split(".")[0] in _gio.FUNCTIONS) else None)
+    R = R0
     from ._families import borrow as _borrow
     from . import c16 as _c16
     _borrow(R, P, "GRAPH", prog, _c16.analyse, floor=100)
